@@ -21,8 +21,9 @@ from .. import env, tlc, absstate, chainlib
 from ..evidence import Check
 
 
-def cache_consts(setkey=False, keyalpha=True, proto=True, weak=False):
-    return {"Arr": "{1, 2}", "Alphas": "{1, 2}", "Parents": "{1}", "Points": "{1}", "MaxKids": 2, "WeakDigest": tlc.tla_bool(weak),
+def cache_consts(setkey=False, keyalpha=True, proto=True, weak=False, handed=False, stateful=False, three=False):
+    return {"Arr": ("{1, 2, 3}" if three else "{1, 2}"), "Alphas": ("{1}" if three else "{1, 2}"), "Parents": "{1}", "Points": "{1}", "MaxKids": (3 if three else 2), "WeakDigest": tlc.tla_bool(weak),
+            "HandedDigests": tlc.tla_bool(handed), "StatefulValue": tlc.tla_bool(stateful),
             "LogSKeyIsSet": tlc.tla_bool(setkey), "KeyHasAlpha": tlc.tla_bool(keyalpha), "Protocol": tlc.tla_bool(proto)}
 
 
@@ -32,9 +33,13 @@ def model_runs(ck):
              ("Cache keys without alpha but with the clearing protocol", (False, False, True), "pass"),
              ("DEV compute_log_S keyed by the set of digests", (True, True, True), "fail"),
              ("DEV keys without alpha and no clearing protocol", (False, False, False), "fail"),
-             ("DEV content digests that collide on the arrays of a run", (False, True, True, True), "fail")]
+             ("DEV content digests that collide on the arrays of a run", (False, True, True, True), "fail"),
+             ("DEV a proposal object is changed by drawing from it (a hit hands out a worn object)", (False, True, True, False, False, True), "fail"),
+             ("Cache as implemented, three children (caches of <= 3 entries)", (False, True, True, False, False, False, True), "pass"),
+             ("DEV sorted digests handed to the pair memo for arrays in call order (three children)", (False, True, True, False, True, False, True), "fail")]
     jobs = [dict(job="c14_%d" % i, module="Cache", workers=4, timeout=1500,
-                 cfg=tlc.cfg_text(constants=cache_consts(*a), invariants=["HitEqualsRecompute", "OneEntryPerKey"])) for i, (_, a, _) in enumerate(cases)]
+                 cfg=tlc.cfg_text(constants=cache_consts(*a), invariants=["HitEqualsRecompute", "OneEntryPerKey"], constraint=("SmallCache" if len(a) > 6 and a[6] else None)))
+            for i, (_, a, _) in enumerate(cases)]
     for (label, _, expect), r in zip(cases, tlc.run_many(jobs, max_parallel=3)):
         ck.add_tlc(label, r, must_fail=(expect == "fail"))
         if expect == "fail":
